@@ -447,6 +447,15 @@ func TestVerif_C04_history(t *testing.T) {
 			if err != nil {
 				q = nil
 			}
+			// "rollout" round (1 in 8, not the first): the home-chain f of one source chain is being changed and the oracles
+			// have picked the change up at different times — three camps report three values, none of them 2F+1 strong, so the
+			// round has NO agreed f for that chain and the chain must be left out, whatever was agreed in earlier rounds
+			// (seeded change C01-12 let a long-lived processor fall back to the f it agreed on before)
+			rolloutCh, rcls := cciptypes.ChainSelector(0), cls
+			if rd > 0 && r.Chance(1, 8) {
+				rolloutCh = vC04Sources[r.Intn(len(vC04Sources))]
+				rcls += "/rollout"
+			}
 			var aos []types.AttributedObservation
 			for _, o := range oracles {
 				if o.id != 0 && r.Chance(1, lossDen) {
@@ -455,6 +464,9 @@ func TestVerif_C04_history(t *testing.T) {
 				ob, err := o.p.Observation(ctx, octx, q)
 				if err != nil {
 					continue
+				}
+				if rolloutCh != 0 {
+					ob = vC04Rollout(ob, rolloutCh, sh.f[rolloutCh]+2*(o.id%3))
 				}
 				if sh.isByz(o.id) {
 					if big == 0 || r.Chance(1, 5) {
@@ -486,7 +498,7 @@ func TestVerif_C04_history(t *testing.T) {
 					diverged++
 				}
 				if string(outs[0]) != "ERR" {
-					vC04EmitRound(rsink, cls, hi, rd, prev, q, shuf, outs[0], maxTree, sh.F)
+					vC04EmitRound(rsink, rcls, hi, rd, prev, q, shuf, outs[0], maxTree, sh.F)
 					prev = outs[0]
 					reps, err := oracles[0].p.Reports(ctx, uint64(rd+1), prev)
 					if err == nil {
@@ -711,6 +723,24 @@ func vC04Collude(ob []byte, sh *vC04Shape, id, kind int, forgeCh cciptypes.Chain
 		}
 	case 4:
 		m.MerkleRoots, m.OnRampMaxSeqNums, m.OffRampNextSeqNums = nil, nil, nil
+	}
+	b, err := o.Encode()
+	if err != nil {
+		return ob
+	}
+	return b
+}
+
+// the observation with the f of chain ch replaced in every fChain map it carries
+func vC04Rollout(ob []byte, ch cciptypes.ChainSelector, f int) []byte {
+	o, err := DecodeCommitPluginObservation(ob)
+	if err != nil {
+		return ob
+	}
+	for _, m := range []map[cciptypes.ChainSelector]int{o.FChain, o.MerkleRootObs.FChain, o.TokenPriceObs.FChain, o.ChainFeeObs.FChain, o.DiscoveryObs.FChain} {
+		if _, ok := m[ch]; ok {
+			m[ch] = f
+		}
 	}
 	b, err := o.Encode()
 	if err != nil {
